@@ -57,15 +57,18 @@ func drawC07(rt *rapid.T) *Case {
 		return gen.Step{Kind: gen.KFilter, Q: &gen.Query{Kind: gen.QExists, P: &gen.Path{Root: gen.RootAt, Steps: steps}}}
 	}
 	multi := func(ents ...gen.MultiEntry) gen.Step { return gen.Step{Kind: gen.KMulti, Ent: ents} }
+	fn := func(name string, agg bool) gen.Step { return gen.Step{Kind: gen.KFunc, Fn: name, Agg: agg} }
 	w, e := gen.MultiEntry{Wild: true}, func(k string) gen.MultiEntry { return gen.MultiEntry{Key: k, Q: gen.NSQ} }
 	templates := [][]gen.Step{
 		{wild}, {bwild}, {rec(wild)}, {wild, wild}, {exists()}, {rec(exists())}, {multi(w, e(k1))}, {rec(name(k1))},
 		{exists(name(k1))}, {multi(e(k2), e(k1), w)}, {rec(multi(e(k1), w))}, {rec(exists(name(k1)))}, {wild, exists()}, {multi(w, w)},
 		{rec(bwild), wild}, {wild, rec(wild)}, {rec(multi(w, w))}, {exists(wild)},
+		{wild, fn("g2", true)}, {rec(wild), fn("g2", true)}, {exists(), fn("g2", true)}, {wild, fn("f1", false)}, {wild, wild, fn("g5", true)},
+		{multi(w, e(k1)), fn("g2", true)}, {exists(wild, fn("g2", true))}, {rec(exists(name(k1))), fn("g2", true), fn("f1", false)},
 	}
 	var p *gen.Path
 	if gen.Uniform(rt, "general", 4) == 0 {
-		g := gen.NewG(rt, gen.PathOpts{MaxSteps: 3, MinSteps: 1})
+		g := gen.NewG(rt, gen.PathOpts{MaxSteps: 3, MinSteps: 1, Funcs: true, FuncPct: 30})
 		p = g.Path()
 	} else {
 		p = &gen.Path{Root: gen.RootDollar, Steps: templates[gen.Uniform(rt, "template", len(templates))]}
@@ -182,7 +185,7 @@ var c07Other = []interface{}{
 func checkC07(c *Case, st *Stats) string {
 	docText := c.Doc.JSON()
 	Journal(c.Check, c.Path, docText, "")
-	f, err := jsonpath.Parse(c.Path)
+	f, err := jsonpath.Parse(c.Path, BuildConfig(nil, true, false))
 	if err != nil {
 		return fmt.Sprintf("generated path was rejected by Parse: %v", err)
 	}
